@@ -1259,8 +1259,12 @@ func (h *hist) genBig() {
 	}
 }
 
-// genIndexRoll: more than 262144 messages, so that the acknowledged sequence moves into the second index page
-// and GC removes the first one.
+// genIndexRoll: more than 262144 messages of ~640 bytes, i.e. an index page roll-over AND a data page roll-over
+// (> 128 MiB of payload), with a lagging group whose ack stays in the first index page while appended is in the
+// second one (ack + 262144 <= appended, so the slot of the same offset in the newest index page is written and
+// points into a later data page). After every Sync + GC ALL sequences above the smallest group ack are read back.
+// Then the lagging group moves on: into the second data page (GC removes data page 0), into the second index
+// page (GC removes index page 0), reopen, read everything back again.
 func (h *hist) genIndexRoll() {
 	const perPage = 1024 * 256
 	r := h.rnd
@@ -1268,12 +1272,13 @@ func (h *hist) genIndexRoll() {
 	h.opCreate("1")
 	h.opCreate("2")
 	a, b := h.groups["1"], h.groups["2"]
-	total := perPage + 300 + r.Intn(500)
+	total := perPage + 2000 + r.Intn(1500)
+	lag := int64(200 + r.Intn(total-perPage-300)) // lag + 262144 <= appended
 	q := h.fq.Queue()
 	// bulk phase without per-operation checks (the same calls, checked at the end of the phase)
-	h.begin("bulk", fmt.Sprintf("bulk: %d puts of 16-40 bytes; group 1 consumes and acks all, group 2 consumes all and acks up to %d", total, perPage-40))
+	h.begin("bulk", fmt.Sprintf("bulk: %d puts of 560-720 bytes; group 1 consumes and acks all, group 2 consumes all and acks %d", total, lag))
 	for i := 0; i < total; i++ {
-		n := 16 + r.Intn(25)
+		n := 560 + r.Intn(161)
 		id := h.nextID
 		h.nextID++
 		if err := q.Put(makePayload(id, n)); err != nil {
@@ -1283,6 +1288,7 @@ func (h *hist) genIndexRoll() {
 		h.appended++
 		h.msgs[h.appended] = msgInfo{id, n}
 	}
+	h.res.count("op.put", total)
 	for _, g := range []*mGroup{a, b} {
 		for g.consumed < h.appended {
 			got := g.h.Consume()
@@ -1300,15 +1306,39 @@ func (h *hist) genIndexRoll() {
 	h.res.count("op.consume", 2*total)
 	a.h.Ack(a.consumed)
 	a.ack = a.consumed
-	b.h.Ack(perPage - 40)
-	b.ack = perPage - 40
+	b.h.Ack(lag)
+	b.ack = lag
 	h.after(true) // the queue ack is still -1: every message must be readable
 	if h.failed {
 		return
 	}
-	h.opSync() // queue ack = 262104: still in index page 0
-	h.opGC()
-	h.opAck(b, perPage+int64(r.Intn(200)), "valid")
+	h.opSync() // queue ack = lag: first index page, first data page; appended is in the second of both
+	h.opGC()   // nothing may go away: data page 0 holds lag+1..
+	if h.failed {
+		return
+	}
+	h.res.count("gc_with_ack_in_older_index_page_than_appended", 1)
+	// the lagging group goes on reading what it has not acknowledged (set-consumed back to its ack: a replay)
+	h.opSetConsumed(b, b.ack)
+	for i := 0; i < 50 && !h.failed; i++ {
+		h.opConsume(b)
+	}
+	if h.failed {
+		return
+	}
+	h.opReopen()
+	if h.failed {
+		return
+	}
+	a, b = h.groups["1"], h.groups["2"]
+	// into the second data page, still in the first index page
+	h.drain(b, perPage-40, true)
+	h.opSync()
+	h.opGC() // data page 0 goes away
+	if h.failed {
+		return
+	}
+	h.drain(b, perPage+int64(r.Intn(200)), true)
 	h.opSync()
 	h.opGC() // index page 0 goes away
 	if h.failed {
@@ -1318,6 +1348,7 @@ func (h *hist) genIndexRoll() {
 	if h.failed {
 		return
 	}
+	b = h.groups["2"]
 	h.puts(20)
 	h.drain(b, h.appended, true)
 	h.opSync()
